@@ -181,6 +181,20 @@ def run(ctx, ck) -> None:
     ck.floor('O4', len(inits), 15, 'distinct constructors')
     ck.floor('O4', nesc, 3, 'escapes of self inside constructors')
 
+    # ------------------------------------------------------------------ O6 reduced operators keep the structures implied by their parts
+    from . import c01
+
+    sub = type(ck)(ck.pid)
+    c01._r_nary(sub, world, table)
+    c01._r_red(sub, world, table)
+    c01._r_ident(sub, world, table)
+    c01._r_drv(sub, world, table)
+    for o in sub.obs:
+        if o.rule.endswith(('R-NARY', 'R-RED', 'R-IDENT', 'R-DRV')):
+            o.rule = f'{ck.pid}.O6'
+            ck.obs.append(o)
+    ck.floor('O6', sum(1 for o in ck.obs if o.rule.endswith('O6')), 15, 'structure obligations on reduced operators')
+
     # ------------------------------------------------------------------ O5 sizes and dtypes
     for name, acc, kind in (('in_size', 'IN', 'size'), ('out_size', 'OUT', 'size'), ('in_promoted_dtype', 'IN', 'dtype'), ('out_promoted_dtype', 'OUT', 'dtype')):
         r = table.resolve(base, name)
